@@ -457,6 +457,9 @@ func (r *transport) handleStaleWhileRevalidate(
 	// caller's context but not its cancellation (an http.Client with a Timeout cancels
 	// the request context as soon as the body has been read); the SWR timeout bounds it.
 	req2 := req.Clone(context.WithoutCancel(req.Context()))
+	// Clone copies the Cancel channel (http.Client sets one for its Timeout when the
+	// transport is not its own): it is the caller's cancellation as well.
+	req2.Cancel = nil
 	condReq := withConditionalHeaders(req2, stored.Data.Header)
 	// Background revalidation is "best effort"; it is not guaranteed to complete
 	// if the program exits before the goroutine finishes. This design choice was
